@@ -171,10 +171,15 @@ PROPS['C10'] = dict(
     level='model_checking',
     design=[D('RouterLifecycle', 'MCRouterLifecycle_fixed_stop.cfg'),
             D('RouterLifecycle', 'MCRouterLifecycle_selfclose.cfg'),
-            D('RouterLifecycle', 'MCRouterLifecycle_mut_started.cfg', expect='fail', violates='NoPanic')],
+            D('RouterLifecycle', 'MCRouterLifecycle_mut_started.cfg', expect='fail', violates='NoPanic'),
+            # the self-close watcher of a router whose handlers are added after Run (defect 578fb50 as a legacy switch)
+            D('RouterWatcher', 'MCRouterWatcher_fixed.cfg', coverage=True, allow_zero=['AddHandlerFinish']),   # (only the MutSignalBeforeAdd design splits AddHandler)
+            D('RouterWatcher', 'MCRouterWatcher_mut_unbuffered.cfg', expect='fail', violates='SelfClose'),
+            D('RouterWatcher', 'MCRouterWatcher_mut_signalfirst.cfg', expect='fail', violates='NoEarlyClose')],
     traces={'RouterLifecycleTrace': dict(module='RouterLifecycleTrace', cfg='RouterLifecycleTrace.cfg')},
     rule='runs = lifecycle programs over {AddHandler, Run, wait Running, RunHandlers (sequential and 3-6 concurrent calls with slow Subscribe), wait Started, Stop, wait Stopped, '
-         'probe message, cancel Run context, second Run (also while the first is held inside Subscribe), Stop/Stopped called in the window right after Started() closes (gate)} '
+         'probe message, cancel Run context, Close, second Run (also while the first is held inside Subscribe), Stop/Stopped called in the window right after Started() closes (gate), '
+         'Run without handlers (first handler added later, possibly after the Run context was cancelled), RunHandlers with a context of its own} '
          'with 1..5 handlers, targeted programs plus random ones; non-trivial = at least two handlers',
     exhaustive=False,
     min_stats={'programs': 25},
